@@ -1,7 +1,11 @@
 import DuneVerif.Model.C10
 import DuneVerif.Model.C10Prog
+import DuneVerif.Model.C10Hist
 /-! line-protocol driver for C10:  `<k> <op> <hexA> [<hexB>|<dec>]`
-    and histories  `<k> prog <hexA> <hexB> : stmt;stmt;…`  (statements of Model/C10Prog.lean) -/
+    and histories  `<k> prog <hexA> <hexB> : stmt;stmt;…`  (statements of Model/C10Prog.lean and, round four,
+    Model/C10Hist.lean: `m<op> d ty y` (d = d op y), `r<op> d ty y` (d = y op d), `c<op> d ty y` (d op= y) with a
+    built-in `y` of type ty ∈ i8 i16 i32 i64 u8 u16 u32 u64 bool; `lt|le|gt|ge|eq|ne x y`; `ltb|…|neb x ty y`;
+    `touint x`) -/
 open DV DV.C10 DV.C10.Gen
 
 def showV (a : List Nat) : String := String.ofList (print a)
@@ -25,6 +29,12 @@ def parseBin? : String → Option BinOp
   | "and" => some .band | "or" => some .bor | "xor" => some .bxor
   | _ => none
 
+def parseTy? : String → Option IntTy
+  | "i8" => some ⟨true, 8⟩ | "i16" => some ⟨true, 16⟩ | "i32" => some ⟨true, 32⟩ | "i64" => some ⟨true, 64⟩
+  | "u8" => some ⟨false, 8⟩ | "u16" => some ⟨false, 16⟩ | "u32" => some ⟨false, 32⟩ | "u64" => some ⟨false, 64⟩
+  | "bool" => some ⟨false, 1⟩
+  | _ => none
+
 def parseStmt? (s : String) : Option POp :=
   match tokens s with
   | ["incr", d] => (parseReg? d).map .incr
@@ -39,6 +49,42 @@ def parseStmt? (s : String) : Option POp :=
       some (.bin (← parseBin? o) (← parseReg? d) (← parseReg? x))
   | _ => none
 
+def parseCmp? : String → Option Cmp
+  | "lt" => some .lt | "le" => some .le | "gt" => some .gt | "ge" => some .ge | "eq" => some .eq | "ne" => some .ne
+  | _ => none
+
+/-- a built-in operand must be a value of its type (the harness cannot pass anything else) -/
+def parseBuiltin? (ty x : String) : Option (IntTy × Int) := do
+  let t ← parseTy? ty
+  let y ← x.toInt?
+  if t.holds y then some (t, y) else none
+
+def parseStmt4? (s : String) : Option Stmt :=
+  match tokens s with
+  | ["touint", x] => (parseReg? x).map .touint
+  | [c, x, y] =>
+    match parseCmp? c with
+    | some c => do some (.cmp c (← parseReg? x) (← parseReg? y))
+    | none => (parseStmt? s).map .old
+  | [o, d, ty, y] =>
+    let cs := o.toList
+    match cs with
+    | 'm' :: rest => do
+      let (t, y) ← parseBuiltin? ty y
+      some (.mixed (← parseBin? (String.ofList rest)) (← parseReg? d) t y true)
+    | 'r' :: rest => do
+      let (t, y) ← parseBuiltin? ty y
+      some (.mixed (← parseBin? (String.ofList rest)) (← parseReg? d) t y false)
+    | 'c' :: rest => do
+      let (t, y) ← parseBuiltin? ty y
+      some (.compound (← parseBin? (String.ofList rest)) (← parseReg? d) t y)
+    | _ =>
+      if o.endsWith "b" then do
+        let (t, y) ← parseBuiltin? ty y
+        some (.cmpB (← parseCmp? (String.ofList cs.dropLast)) (← parseReg? d) t y)
+      else none
+  | _ => (parseStmt? s).map .old
+
 /-- does this statement run the subtraction loop more than `quotCap` times? -/
 def tooSlow (n : Nat) (r : Regs) : POp → Bool
   | .bin o d s => (o == .div || o == .mod) && val (r.get s) != 0 && val (r.get d) / val (r.get s) > quotCap
@@ -46,20 +92,34 @@ def tooSlow (n : Nat) (r : Regs) : POp → Bool
     (o == .div || o == .mod) && val (assign n y) != 0 && val (r.get d) / val (assign n y) > quotCap
   | _ => false
 
-/-- `run` of the model, statement by statement, stopping with `SKIP` at a too slow division -/
-def runProg (k : Nat) : Regs → List POp → List String → String
-  | r, [], acc => ";".intercalate acc.reverse ++ " => " ++ showV r.a ++ " " ++ showV r.b
-  | r, op :: ops, acc =>
-    if tooSlow (ndigits k) r op then ";".intercalate ("SKIP" :: acc).reverse
-    else match step k r op with
-      | none => "bad-op"
-      | some (r', o) => runProg k r' ops (showR o :: acc)
+def tooSlow4 (n : Nat) (r : Regs) : Stmt → Bool
+  | .old op => tooSlow n r op
+  | .mixed o d t y bl =>
+    (o == .div || o == .mod) && decide (0 ≤ y) &&
+      (let c := val (assign n y.toNat)
+       let x := val (r.get d)
+       let (num, den) := if (mixedBody t.signed bl o).any (·.bigLeft) then (x, c) else (c, x)
+       den != 0 && num / den > quotCap)
+  | .compound o d _ y =>
+    (o == .div || o == .mod) && decide (0 ≤ y) && val (assign n y.toNat) != 0 &&
+      val (r.get d) / val (assign n y.toNat) > quotCap
+  | _ => false
 
-def parseTy? : String → Option IntTy
-  | "i8" => some ⟨true, 8⟩ | "i16" => some ⟨true, 16⟩ | "i32" => some ⟨true, 32⟩ | "i64" => some ⟨true, 64⟩
-  | "u8" => some ⟨false, 8⟩ | "u16" => some ⟨false, 16⟩ | "u32" => some ⟨false, 32⟩ | "u64" => some ⟨false, 64⟩
-  | "bool" => some ⟨false, 1⟩
-  | _ => none
+def showObs : Obs → String
+  | .val v => showV v
+  | .mathError => "ERR:Math"
+  | .negative => "ERR:Negative"
+  | .bool b => showB b
+  | .num x => toString x
+
+/-- `run4` of the model, statement by statement, stopping with `SKIP` at a too slow division -/
+def runProg (k : Nat) : Regs → List Stmt → List String → String
+  | r, [], acc => ";".intercalate acc.reverse ++ " => " ++ showV r.a ++ " " ++ showV r.b
+  | r, st :: sts, acc =>
+    if tooSlow4 (ndigits k) r st then ";".intercalate ("SKIP" :: acc).reverse
+    else match step4 k r st with
+      | none => "bad-op"
+      | some (r', o) => runProg k r' sts (showObs o :: acc)
 
 def handleProg (line : String) : Option String :=
   match line.splitOn " : " with
@@ -70,7 +130,7 @@ def handleProg (line : String) : Option String :=
       let n := ndigits k
       let a ← parseHex? a
       let b ← parseHex? b
-      let stmts ← (body.splitOn ";").mapM parseStmt?
+      let stmts ← (body.splitOn ";").mapM parseStmt4?
       some (runProg k ⟨ofNat n a, ofNat n b⟩ stmts [])
     | _ => none
   | _ => none
@@ -90,17 +150,21 @@ def handle (line : String) : String :=
           | some a, some b => f a b
           | _, _ => "bad-op"
         | _ => "bad-op"
-      -- big OP builtin (second operand goes through assign)
-      let binU (f : List Nat → List Nat → String) : String :=
+      -- big OP builtin / builtin OP big: the free mixed operators, through the regenerated table `mixedBody`.
+      -- The harness passes the built-in as `int` when it is below 2^31 and divisible by 3 (signed overloads),
+      -- otherwise as an unsigned type (uintmax_t overloads).
+      let mixedOp (o : BinOp) (bigLeft : Bool) : String :=
         match rest with
-        | [a, b] => match big a, b.toNat? with
-          | some a, some y => if y < 2^64 then f a (assign n y) else "bad-op"
-          | _, _ => "bad-op"
-        | _ => "bad-op"
-      let uBin (f : List Nat → List Nat → String) : String :=
-        match rest with
-        | [a, b] => match a.toNat?, big b with
-          | some y, some b => if y < 2^64 then f (assign n y) b else "bad-op"
+        | [p, q] =>
+          let (bs, ys) := if bigLeft then (p, q) else (q, p)
+          match big bs, ys.toNat? with
+          | some a, some y =>
+            if y < 2^64 then
+              let t : IntTy := if y < 2^31 ∧ y % 3 = 0 then ⟨true, 32⟩ else ⟨false, 64⟩
+              match step4 k ⟨a, a⟩ (.mixed o .a t (Int.ofNat y) bigLeft) with
+              | some (_, obs) => showObs obs
+              | none => "bad-op"
+            else "bad-op"
           | _, _ => "bad-op"
         | _ => "bad-op"
       let un (f : List Nat → String) : String :=
@@ -125,10 +189,10 @@ def handle (line : String) : String :=
         | _ => "bad-op"
       match op with
       | "add" | "sub" | "mul" | "div" | "mod" => arith bin op
-      | "add_u" => arith binU "add" | "sub_u" => arith binU "sub" | "mul_u" => arith binU "mul"
-      | "div_u" => arith binU "div" | "mod_u" => arith binU "mod"
-      | "u_add" => arith uBin "add" | "u_sub" => arith uBin "sub" | "u_mul" => arith uBin "mul"
-      | "u_div" => arith uBin "div" | "u_mod" => arith uBin "mod"
+      | "add_u" => mixedOp .add true | "sub_u" => mixedOp .sub true | "mul_u" => mixedOp .mul true
+      | "div_u" => mixedOp .div true | "mod_u" => mixedOp .mod true
+      | "u_add" => mixedOp .add false | "u_sub" => mixedOp .sub false | "u_mul" => mixedOp .mul false
+      | "u_div" => mixedOp .div false | "u_mod" => mixedOp .mod false
       | "and" => bin fun a b => showV (band a b)
       | "or" => bin fun a b => showV (bor a b)
       | "xor" => bin fun a b => showV (bxor a b)
@@ -158,9 +222,15 @@ def handle (line : String) : String :=
       | "touint" => un fun a => toString (touint a)
       | "todouble" => un fun a => toString (todoubleN a)
       | "print" => un fun a => String.ofList (printCanon a)
+      -- `printfl <mask> <hex>`: print() into a stream with format flags set; the flags take no part
+      | "printfl" => match rest with
+        | [m, a] => match m.toNat?, big a with
+          | some m, some a => if m < 64 then String.ofList (printCanon a) else "bad-op"
+          | _, _ => "bad-op"
+        | _ => "bad-op"
       | "max" => showV (maxVal n)
       | "digits" => toString (limitsDigits k)
-      | "limits" => s!"digits={limitsDigits k} radix={limitsRadix} signed={showB limitsIsSigned} integer={showB limitsIsInteger} exact={showB limitsIsExact} bounded={showB limitsIsBounded} modulo={showB limitsIsModulo}"
+      | "limits" => s!"digits={limitsDigits k} radix={limitsRadix} signed={showB limitsIsSigned} integer={showB limitsIsInteger} exact={showB limitsIsExact} bounded={showB limitsIsBounded} modulo={showB limitsIsModulo} specialized={showB limitsIsSpecialized} exponents={",".intercalate (limitsExponents.map toString)} infinity={showB limitsHasInfinity} qnan={showB limitsHasQuietNaN} snan={showB limitsHasSignalingNaN} denormloss={showB limitsHasDenormLoss} iec559={showB limitsIsIec559} traps={showB limitsTraps} tinyness={showB limitsTinynessBefore}"
       | "default" => match rest with
         | [] => showV (assign n 0)
         | _ => "bad-op"
